@@ -3,3 +3,7 @@ import QV.Prelude
 import QV.Generated.Consts
 import QV.Generated.Tables
 import QV.Properties.C14
+import QV.Generated.Rrl
+import QV.Properties.C26
+import QV.Properties.C27
+import QV.Properties.C28
